@@ -61,6 +61,29 @@ def window_case(rng, n):
     return cs, x
 
 
+def subnormal_coef_case(rng, k):
+    """a SUBNORMAL coefficient c_i (i >= 1) with |x| so large that the monomial c_i x^i is an ordinary normal number (and every
+    other monomial and every power the scheme forms stays in range): flushing small coefficients to zero loses that term"""
+    import math
+    i = k if (k == 1 or rng.random() < 0.7) else k - 1
+    s_ = rng.randint(1023, 1070)
+    lo_e = -(-(s_ - 250) // i)
+    hi_e = 940 // k
+    if lo_e > hi_e:
+        i = k
+        lo_e = -(-(s_ - 250) // i)
+    e = rng.randint(lo_e, max(lo_e, hi_e))
+    x = rng.choice([1.0, -1.0]) * math.ldexp(1.0, e)
+    ci = rng.choice([1.0, -1.0, 3.0, -5.0]) * math.ldexp(1.0, -s_)
+    t = e * i - s_                                   # log2 of the monomial
+    cs = [0.0] * (k + 1)
+    cs[i] = ci
+    for j in range(k + 1):
+        if j != i and rng.random() < 0.4 and -1000 < t - e * j < 1000:
+            cs[j] = rng.choice([1.0, -1.0, 0.5]) * math.ldexp(1.0, t - e * j - rng.randint(0, 3))
+    return cs, x
+
+
 def coeffs(rng, n):
     style = rng.choice(["int", "int", "log", "log", "cancel", "small", "sparse", "no_const"])
     if style == "no_const":
@@ -127,6 +150,10 @@ class P(Prop):
                 for _ in range(max(6, per // 2)):
                     cs, x = window_case(rng, k + 1)
                     out.append(K.kernel_case("Poly%d::evaluate" % k, cs + [x], cls="poly/window"))
+            if k >= 1:
+                for _ in range(max(3, per // 4)):
+                    cs, x = subnormal_coef_case(rng, k)
+                    out.append(K.kernel_case("Poly%d::evaluate" % k, cs + [x], cls="poly/subnormal_coef"))
             for _ in range(max(2, per // 3)):
                 style, cs = coeffs(rng, k + 1)
                 v = rng.choice([rng.uniform(0.01, 20), rng.f64_loguniform(-30, 30, signed=False), 1.0, 2.718281828459045, 5e-324, 1e-310,
